@@ -210,7 +210,9 @@ class Proof:
             cmd += ['--unwinding-assertions']
         cmd += [b]
         self.cbmc_cmd = cmd
-        rc, out, err, dt = _run(cmd, self.timeout)
+        # every unit states its proofs' time limits for a 16-core machine under its own load; a slower or busier machine gets the
+        # stated factor on top (default 2): a limit reached on the unchanged tree would be an exit 2 that says nothing about qxmpp
+        rc, out, err, dt = _run(cmd, int(self.timeout * float(os.environ.get('VERIF_TIMEOUT_SCALE', '2'))))
         res['solver_time_s'] = round(dt, 2)
         if not os.environ.get('VERIF_KEEP_GB'):
             for f in (a,):
@@ -225,7 +227,7 @@ class Proof:
             return res
         if rc == 'timeout':
             res['status'] = 'timeout'
-            res['detail'] = 'cbmc exceeded %ds' % self.timeout
+            res['detail'] = 'cbmc exceeded %ds' % int(self.timeout * float(os.environ.get('VERIF_TIMEOUT_SCALE', '2')))
             return res
         # plain-text result lines:  [name] line N description: STATUS     (the JSON UI builds a full trace per failed
         # property, gigabytes for large functions; traces are requested separately, per property, when needed)
